@@ -225,7 +225,7 @@ def gen_cache_history(rng):
     address, a new instance at a known address), repeated I-Ams with other limits, Application construction around the
     cache at any point (empty or not)"""
     ops = []
-    insts, addrs = [3, 4, 5], [3, 4, 5, 9]
+    insts, addrs = [3, 4, 5], [3, 4, 5, 9, 13, 14]
     for _ in range(rng.randrange(1, 9)):
         u = rng.random()
         if u < 0.45:
